@@ -83,13 +83,17 @@ let () =
   register "rg_thm" (function [f; mx] ->
     let fb = Wire_flat.flat_of_sexp f in
     let mx = int_of_sexp mx in
-    if not (Frag.frag1 fb) then "(outside)"
-    else if fb.Flat.fl_errors_fail then "(refused " ^ show_bool (Frag.frag0 fb) ^ ")"   (* show_errors() fails: RandomGen returns nothing *)
+    if not (Frag.frag2 fb) then "(outside)"
     else
+      (* 0: Frag.frag0, 1: Frag.frag1 (not frag0), 2: Frag.frag2 (weights; not frag1) *)
+      let level = if Frag.frag0 fb then "0" else if Frag.frag1 fb then "1" else "2" in
+      if fb.Flat.fl_errors_fail then "(refused " ^ level ^ ")"   (* show_errors() fails: RandomGen returns nothing *)
+      else
       let n = Stdlib.List.length (FragSem.keys_of fb) in
-      if n > mx then "(big " ^ string_of_int n ^ " " ^ show_bool (Frag.frag0 fb) ^ ")"
+      if n > mx then "(big " ^ string_of_int n ^ " " ^ level ^ ")"
       else "(frag " ^ string_of_int n ^ " " ^ show_bool (FragSem.check_sound fb) ^ " " ^ show_bool (FragSem.check_inj fb) ^ " "
            ^ show_bool (FragSem.check_complete fb) ^ " " ^ show_bool (FragSem.check_accepted_count fb) ^ " "
            ^ show_bool (if Frag.rejection_free fb then FragSem.check_count fb else true) ^ " "
-           ^ show_bool (Frag.frag0 fb) ^ " " ^ show_bool (Frag.rejection_free fb) ^ " " ^ show_nat (FragSem.accepted_count_of fb) ^ ")"
+           ^ show_bool (Frag.frag0 fb) ^ " " ^ show_bool (Frag.rejection_free fb) ^ " " ^ show_nat (FragSem.accepted_count_of fb)
+           ^ " " ^ level ^ " " ^ show_bool (FragSem.enumerates_b fb) ^ ")"
     | _ -> "!args")
